@@ -1,12 +1,15 @@
 //! Correspondence harness: runs the real xml-rs crates on cases read from stdin and prints
-//! one canonical observation line per case.  The extracted Coq model (ocaml/driver.ml)
-//! speaks the same protocol; tools/ and checks/ diff the two.
+//! one canonical observation line per case.  The extracted Coq model (ocaml/) speaks the
+//! same protocol; checks/ diff the two.  Usage: `xh <domain>`; domains are the files of
+//! src/domains/ (see build.rs).  `xh <domain> --isolated` is the same, meant to be started
+//! once per case by checks/lib.py for inputs that may abort or hang.
 //!
 //! Strings travel as decimal code points separated by ',' ("-" is the empty string).
 
-mod chars;
-mod prod;
-mod util;
+pub mod util;
+mod table {
+    include!(concat!(env!("OUT_DIR"), "/domains.rs"));
+}
 
 use std::io::{self, BufRead, Write};
 
@@ -18,30 +21,25 @@ fn main() {
     let stdin = io::stdin();
     let stdout = io::stdout();
     let mut out = io::BufWriter::new(stdout.lock());
-    match domain {
-        "chars" => chars::run(&mut out),
-        _ => {
-            let f: fn(&str) -> String = match domain {
-                "prod" => prod::case,
-                _ => {
-                    eprintln!("unknown domain {}", domain);
-                    std::process::exit(2);
-                }
-            };
-            for line in stdin.lock().lines() {
-                let line = line.unwrap();
-                if line.is_empty() {
-                    continue;
-                }
-                let l2 = line.clone();
-                let r = std::panic::catch_unwind(move || f(&l2));
-                let s = match r {
-                    Ok(s) => s,
-                    Err(_) => "panic".to_string(),
-                };
-                writeln!(out, "{}", s).unwrap();
+    if let Some(f) = table::whole_fn(domain) {
+        f(&mut out);
+    } else if let Some(f) = table::case_fn(domain) {
+        for line in stdin.lock().lines() {
+            let line = line.unwrap();
+            if line.is_empty() {
+                continue;
             }
+            let r = std::panic::catch_unwind(move || f(&line));
+            let s = match r {
+                Ok(s) => s,
+                Err(_) => "panic".to_string(),
+            };
+            writeln!(out, "{}", s).unwrap();
+            out.flush().unwrap();
         }
+    } else {
+        eprintln!("unknown domain {}", domain);
+        std::process::exit(2);
     }
     out.flush().unwrap();
 }
